@@ -154,7 +154,7 @@ def parse(out):
             continue
         elif w[0] == "LAT" and w[1] == "null":
             cur["null"] = True
-            cur["again"] = w[2]
+            cur["again"] = w[2].split("=")[1]
         elif w[0] == "LAT" and w[1] == "end":
             res.append(cur)
             cur = None
@@ -316,7 +316,16 @@ def parse_driver(out):
 
 def run_case(binp, case, audios, timeout=600):
     cmds = case_cmds(case, audios)
-    rc, out, err = vlib.run_bin(binp, stdin_text="\n".join(cmds) + "\n", leaks=True, timeout=timeout)
+    # other checks running concurrently may prune the build cache: make sure the binary is there
+    # (a cache hit costs a tree hash and touches the directory)
+    for attempt in range(3):
+        try:
+            binp = vlib.build_harness("h_c11")
+            rc, out, err = vlib.run_bin(binp, stdin_text="\n".join(cmds) + "\n", leaks=True, timeout=timeout)
+            break
+        except FileNotFoundError:
+            if attempt == 2:
+                raise
     lats = parse(out)
     return rc, out, err, lats
 
@@ -437,9 +446,7 @@ def judge_c11(c, d, rep, tab, case, stats):
         nw = sum(1 for h in d["hist"] if h and h[4] >= 0)
         if d.get("again") != "null":
             probs.append(("second request after a NULL lattice returned an object", True, None))
-        # no lattice although the history has word exits and a first-best exists: reported with the first-best class
-        if rep["built"] not in (None, "skipped"):
-            probs.append((f"model builds a lattice, implementation returns NULL ({nw} word entries)", real_segs(d) != [], None))
+        # (no lattice although the model builds one is a correspondence mismatch, see judge_build)
         return probs
     G = d["G"]
     if G["same"] != 1 or d.get("same_after", 1) != 1:
@@ -581,18 +588,18 @@ def check(c):
     cases = [dict(x, _corpus=True) for x in load_corpus("C11")]
     ncorp = len(cases)
     cases += [gen_case(rng, audios) for _ in range(ncases)]
-    nlat, nviol, build_ok, nbuild, distinct = 0, 0, True, 0, set()
+    nlat, build_ok, nbuild, distinct = 0, True, 0, set()
     harness_ok = True
+    viols, nmism = [], 0
     for ci, case in enumerate(cases):
         res, mism, fail = eval_case(c, binp, audios, case, stats)
         if fail:
             harness_ok = False
             c.oblige("harness + driver run to completion without sanitizer report / abort", False, {"case": describe(case), **fail})
-            c.violation({"kind": "sanitizer report, abort or exit inside the lattice code", "case": describe(case), **fail,
-                         "how_to_rerun": "python3 tools/check.py C11 --replay <this file>", "case_raw": case}, True)
-            if nviol > 3:
+            viols.append((True, None, {"kind": "sanitizer report, abort or exit inside the lattice code", "case": describe(case), **fail,
+                                       "how_to_rerun": "python3 tools/check.py C11 --replay <this file>", "case_raw": case}, None, None))
+            if len(viols) > 8:
                 break
-            nviol += 1
             continue
         if ci < ncorp + 2:
             c.samples.append(dict(describe(case), lattices=[("NULL" if d["null"] else f"{len(d['nodes'])} nodes/{len(d['links'])} links @ {d['frame']} frames") for d, _, _, _ in res]))
@@ -602,28 +609,45 @@ def check(c):
                 distinct.add((case["grammar"], case["audio"], tuple(case["cfg"]), d["frame"]))
                 nbuild += 1
             for (what, found, key) in probs:
-                if nviol > 6:
-                    break
-                nviol += 1
-                small = case
-                if found and not case.get("_corpus"):
-                    def still(cand, tag=d["tag"], what=what):
-                        r2, _, f2 = eval_case(c, binp, audios, cand, None, with_build=False)
-                        if f2 or not r2:
-                            return False
-                        return any(w2.split(":")[0] == what.split(":")[0] for (_, _, _, p2) in r2 for (w2, _, _) in p2)
-                    small = shrink_case(c, binp, audios, case, d["tag"], still)
-                c.violation({"kind": "word lattice violates C11", "what": what, "request": d["tag"], "n_frames": d["frame"],
-                             "case": describe(small), "case_raw": small,
-                             "first_best": [x[:3] for x in real_segs(d)], "lattice_nodes": [(n["word"], n["sf"], n["fef"], n["lef"], n["state"]) for n in d["nodes"]][:60],
-                             "lattice_links": [(l["src"], l["dst"], l["ef"], l["ascr"]) for l in d["links"]][:120],
-                             "checker_clauses": rep.get("clauses"),
-                             "how_to_rerun": "python3 tools/check.py C11 --replay <this file>"}, found, finding_key=key)
+                viols.append((found, key, {"kind": "word lattice violates C11", "what": what, "request": d["tag"], "n_frames": d["frame"],
+                                           "first_best": [x[:3] for x in real_segs(d)],
+                                           "lattice_nodes": [(n["word"], n["sf"], n["fef"], n["lef"], n["state"]) for n in d["nodes"]][:60],
+                                           "lattice_links": [(l["src"], l["dst"], l["ef"], l["ascr"]) for l in d["links"]][:120],
+                                           "checker_clauses": rep.get("clauses"),
+                                           "how_to_rerun": "python3 tools/check.py C11 --replay <this file>"}, case, d["tag"]))
         for (tag, mm) in mism:
             build_ok = False
-            c.oblige("correspondence buildLattice = fsg_search_lattice", False, {"case": describe(case), "request": tag, "mismatch": mm})
-    c.oblige("latticeOKB (verified checker) accepts every lattice the implementation returned; first-best on a validated path; cache returns the same object", nviol == 0)
-    c.oblige("correspondence: model buildLattice on the dumped history = lattice of fsg_search_lattice (nodes, links, scores, start/end; canonically sorted) on every request", build_ok)
+            nmism += 1
+            if nmism <= 3:
+                c.oblige("correspondence buildLattice = fsg_search_lattice", False, {"case": describe(case), "request": tag, "mismatch": mm})
+        if len(viols) > 40:
+            break
+    # record violations: those with a failing input first, one per witness class, each shrunk
+    viols.sort(key=lambda v: (not v[0],))
+    seen_cls, nrec = set(), 0
+    for (found, key, obj, case, tag) in viols:
+        cls = key or obj.get("what", obj["kind"]).split(":")[0][:60]
+        if cls in seen_cls or nrec >= 6:
+            continue
+        seen_cls.add(cls)
+        nrec += 1
+        if case is not None:
+            small = case
+            if found and not case.get("_corpus"):
+                what = obj["what"]
+
+                def still(cand, what=what):
+                    r2, _, f2 = eval_case(c, binp, audios, cand, None, with_build=False)
+                    if f2 or not r2:
+                        return False
+                    return any(w2.split(":")[0] == what.split(":")[0] for (_, _, _, p2) in r2 for (w2, _, _) in p2)
+                small = shrink_case(c, binp, audios, case, tag, still)
+            obj = dict(obj, case=describe(small), case_raw={k: v for k, v in small.items() if not k.startswith("_")})
+        c.violation(obj, found, finding_key=key)
+    c.oblige("latticeOKB (verified checker) accepts every lattice the implementation returned; first-best on a validated path; cache returns the same object",
+             not viols, f"{len(viols)} violations in {nlat} lattice requests")
+    c.oblige("correspondence: model buildLattice on the dumped history = lattice of fsg_search_lattice (nodes, links, scores, start/end; canonically sorted) on every request",
+             build_ok, f"{nmism} mismatching requests")
     c.oblige("every harness run finished without sanitizer report, assert or leak", harness_ok)
     c.cov.update({"evaluations": nlat, "distinct_nontrivial": len(distinct),
                   "rule": "one evaluation = one lattice request (mid-utterance or final) of a generated decode; non-trivial = a lattice was returned; "
